@@ -95,6 +95,27 @@ let backend_of be cpu =
   | "top" -> x86_choice (match cpu with "sse2" -> Sse2Only | "none" -> NoSimd | _ -> HasAvx2)
   | _ -> failwith ("unknown backend " ^ be)
 
+let arch_of cpu = AX86 (match cpu with "sse2" -> Sse2Only | "none" -> NoSimd | _ -> HasAvx2)
+
+(* decimal printing of N (may exceed OCaml's int for the 64-bit byte set) *)
+let string_of_n (v : n) : string =
+  match v with
+  | N0 -> "0"
+  | Npos p ->
+    (* collect bits, then repeated division by 10 on a big-endian bit list *)
+    let rec bits p acc = match p with XH -> 1 :: acc | XO q -> bits q (0 :: acc) | XI q -> bits q (1 :: acc) in
+    let b = ref (bits p []) in   (* most significant first *)
+    let digits = Buffer.create 20 in
+    let is_zero l = List.for_all (fun x -> x = 0) l in
+    let out = ref [] in
+    while not (is_zero !b) do
+      let rem = ref 0 in
+      let q = List.map (fun bit -> let v = !rem * 2 + bit in rem := v mod 10; v / 10) !b in
+      out := !rem :: !out; b := q
+    done;
+    List.iter (fun d -> Buffer.add_string digits (string_of_int d)) !out;
+    Buffer.contents digits
+
 let run_case op kv : string * string =
   match op with
   | "iseq" | "ispre" | "issuf" ->
@@ -164,6 +185,69 @@ let run_case op kv : string * string =
        (match pf_new x i1 i2 with
         | Panic p -> ("Panic:" ^ fmt_panic p, "-")
         | Ok f -> let (r, t) = pf_find_prefilter cpu f (nat_of_int (num kv "a")) h in (fmt_res fmt_opt_nat r, fmt_trace t)))
+  | "twnew" | "twrnew" ->
+    let x = bytes kv "x" in
+    let (r, t) = if op = "twnew" then tw_new x else tw_new_rev x in
+    (fmt_res (fun tw ->
+       Printf.sprintf "%s(TwoWay { byteset: ApproximateByteSet(%s), critical_pos: %d, shift: %s })"
+         (if op = "twnew" then "Finder" else "FinderRev") (string_of_n tw.tw_byteset) (int_of_nat tw.tw_cp)
+         (match tw.tw_shift with
+          | Small p -> Printf.sprintf "Small { period: %d }" (int_of_nat p)
+          | Large s -> Printf.sprintf "Large { shift: %d }" (int_of_nat s))) r, fmt_trace t)
+  | "twfind" | "twrfind" ->
+    let x = bytes kv "x" and h = bytes kv "h" in
+    let fx = if get kv "fx" = "" then x else bytes kv "fx" in
+    if op = "twfind" then begin
+      let (r, t1) = tw_new x in
+      match r with
+      | Panic p -> ("Panic:" ^ fmt_panic p, fmt_trace t1)
+      | Ok tw -> let (r2, t2) = tw_find tw None (nat_of_int (num kv "a")) h fx prestate_new in
+        (fmt_res (fun (o, _) -> fmt_opt_nat o) r2, fmt_trace (t1 @ t2))
+    end else begin
+      let (r, t1) = tw_new_rev x in
+      match r with
+      | Panic p -> ("Panic:" ^ fmt_panic p, fmt_trace t1)
+      | Ok tw -> let (r2, t2) = tw_rfind tw h fx in (fmt_res fmt_opt_nat r2, fmt_trace (t1 @ t2))
+    end
+  | "mm" ->
+    let x = bytes kv "x" and h = bytes kv "h" in
+    let a = nat_of_int (num kv "a") in
+    let ar = arch_of (get kv "cpu") in
+    let cfg = if get kv "cfg" = "none" then PNone else PAuto in
+    (match get kv "f" with
+     | "top" -> let (r, t) = memmem_find ar a h x in (fmt_res fmt_opt_nat r, fmt_trace t)
+     | "rtop" -> let (r, t) = memmem_rfind ar a h x in (fmt_res fmt_opt_nat r, fmt_trace t)
+     | "find" ->
+       let (f, t1) = finder_new cfg (ranker (get kv "rank")) ar x in
+       (match f with
+        | Panic p -> ("Panic:" ^ fmt_panic p, fmt_trace t1)
+        | Ok f -> let (r, t2) = finder_find ar f a h in (fmt_res fmt_opt_nat r, fmt_trace (t1 @ t2)))
+     | "rfind" ->
+       let (f, t1) = rfinder_new x in
+       (match f with
+        | Panic p -> ("Panic:" ^ fmt_panic p, fmt_trace t1)
+        | Ok f -> let (r, t2) = rfinder_rfind ar f a h in (fmt_res fmt_opt_nat r, fmt_trace (t1 @ t2)))
+     | _ -> ("BadCase", "-"))
+  | "mmiter" ->
+    let x = bytes kv "x" and h = bytes kv "h" in
+    let a = nat_of_int (num kv "a") in
+    let ar = arch_of (get kv "cpu") in
+    let cfg = if get kv "cfg" = "none" then PNone else PAuto in
+    let k = nat_of_int (num kv "k") in
+    if get kv "dir" = "r" then begin
+      let (f, t1) = rfinder_new x in
+      match f with
+      | Panic p -> ("Panic:" ^ fmt_panic p, fmt_trace t1)
+      | Ok f -> let (r, t2) = riter_run ar f a h k (riter_new h) in
+        (fmt_res (fun outs -> String.concat ";" (List.map fmt_opt_nat outs)) r, fmt_trace (t1 @ t2))
+    end else begin
+      let (f, t1) = finder_new cfg (ranker (get kv "rank")) ar x in
+      match f with
+      | Panic p -> ("Panic:" ^ fmt_panic p, fmt_trace t1)
+      | Ok f -> let (r, t2) = fiter_run ar f a h k fiter_new in
+        (fmt_res (fun outs -> String.concat ";" (List.map (fun (o, (lo, hi)) ->
+            Printf.sprintf "%d-%d:%s" (int_of_nat lo) (int_of_nat hi) (fmt_opt_nat o)) outs)) r, fmt_trace (t1 @ t2))
+    end
   | _ -> ("UnknownOp", "-")
 
 let () =
